@@ -15,6 +15,7 @@ import (
 	"os"
 	"path/filepath"
 	"sort"
+	"strings"
 	"sync"
 	"time"
 
@@ -471,11 +472,21 @@ func PgTerm(pgno uint32, data []byte) string {
 func (r *Rec) Write(pgno uint32, data []byte) { r.add("OWrite %d %s", pgno, PgTerm(pgno, data)) }
 func (r *Rec) Truncate(n uint32)              { r.add("OTruncate %d", n) }
 func (r *Rec) CommitJournal(commit uint32)    { r.add("OCommitJournal %d", commit) }
-func (r *Rec) WalHeader()                     { r.add("OWalHeader") }
-func (r *Rec) WalTruncate()                   { r.add("OWalTruncate") }
-func (r *Rec) Checkpoint()                    { r.add("OCheckpoint") }
-func (r *Rec) Open()                          { r.add("OOpen") }
-func (r *Rec) Drop()                          { r.add("ODrop") }
+
+// CommitJournalFailed: the commit recorded last was attempted and refused (the journal could not be finalised).
+func (r *Rec) CommitJournalFailed() {
+	if r == nil || len(r.Ops) == 0 {
+		return
+	}
+	if last := r.Ops[len(r.Ops)-1]; strings.HasPrefix(last, "OCommitJournal ") {
+		r.Ops[len(r.Ops)-1] = "OCommitJournalFail " + strings.TrimPrefix(last, "OCommitJournal ")
+	}
+}
+func (r *Rec) WalHeader()   { r.add("OWalHeader") }
+func (r *Rec) WalTruncate() { r.add("OWalTruncate") }
+func (r *Rec) Checkpoint()  { r.add("OCheckpoint") }
+func (r *Rec) Open()        { r.add("OOpen") }
+func (r *Rec) Drop()        { r.add("ODrop") }
 func (r *Rec) CommitWal(frames []WALFrameSpec, commit uint32) {
 	if r == nil {
 		return
@@ -771,12 +782,16 @@ func (p *Pager) RunRollbackTx(prev *Image, tx Tx, jm JournalMode, outcome Rollba
 	if err := finalize(); err != nil {
 		if p.RollbackOnCommitError {
 			// what SQLite does when the journal cannot be finalised: play it back, finalise again
+			p.Rec.CommitJournalFailed()
 			for _, pg := range recs {
 				_ = db.WriteDatabaseAt(ctx, dbf, prev.Pages[pg-1], int64(pg-1)*int64(ps), o)
+				p.Rec.Write(pg, prev.Pages[pg-1])
 			}
 			if (tx.NewSize > uint32(len(prev.Pages)) || maxWritten > uint32(len(prev.Pages))) && len(prev.Pages) > 0 {
 				_ = db.TruncateDatabase(ctx, int64(len(prev.Pages))*int64(ps))
+				p.Rec.Truncate(uint32(len(prev.Pages)))
 			}
+			p.Rec.CommitJournal(uint32(len(prev.Pages)))
 			p.CommitErr2 = finalize()
 			p.logf("commit refused (%v): rolled back, second finalize: %v", err, p.CommitErr2)
 		}
@@ -880,6 +895,30 @@ func (p *Pager) RestartWAL(salt1, salt2 uint32) {
 	p.walInit = false
 	p.walSalt1, p.walSalt2 = salt1, salt2
 	p.walFrames = 0
+}
+
+// AttachWAL sets the writer state the way a connection that opens the database does (SQLite's
+// walIndexRecover): an existing log is continued after its last committed frame; an empty, missing or
+// invalid log starts a new generation with the given salts.
+func (p *Pager) AttachWAL(salt1, salt2 uint32) {
+	b, _ := os.ReadFile(p.DB.WALPath())
+	frames, ps, ok := ReadWALValid(b)
+	last := -1
+	for i, f := range frames {
+		if f.Commit != 0 {
+			last = i
+		}
+	}
+	if !ok || ps != p.PageSize || last < 0 {
+		p.RestartWAL(salt1, salt2)
+		return
+	}
+	p.BigEndianWAL = binary.BigEndian.Uint32(b[0:]) == 0x377f0683
+	p.walSalt1, p.walSalt2 = binary.BigEndian.Uint32(b[16:]), binary.BigEndian.Uint32(b[20:])
+	h := b[frames[last].Offset : frames[last].Offset+24]
+	p.walCk1, p.walCk2 = binary.BigEndian.Uint32(h[16:]), binary.BigEndian.Uint32(h[20:])
+	p.walFrames = last + 1
+	p.walInit = true
 }
 
 // WriteWALFrames appends frames (the last one with commit != 0 if commitSize != 0).
